@@ -8,7 +8,7 @@ package mem
 //@ spec overlaps(n *types.Alert, o *types.Alert) bool =
 //@     (n.EndsAt > o.StartsAt && n.EndsAt < o.EndsAt) || (n.StartsAt > o.StartsAt && n.StartsAt < o.EndsAt)
 //@ func (*Alerts).Put
-//@   props C13 C18 C14
+//@   props C13 C18 C14 C06 C05 C03
 //@   ensures [monitor-lock-released] count("Mutex).Lock") == count("Mutex).Unlock") && count("Mutex).Lock") == 1
 //@   at call store.Alerts).Get assert [monitor-lock-held] count("Mutex).Lock") == 1 && count("Mutex).Unlock") == 0
 //@   abstract
@@ -92,3 +92,15 @@ package mem
 //@   loop 1 invariant cap(ch) >= len(alerts) && count("Mutex).Unlock") == 0 && (forall k int :: a.listeners[k] == old(a.listeners[k]))
 //@   noeffect store.Alerts).List NewAlertIterator
 //@   assigns a.next, a.listeners[*]
+
+// ---- C03 / C14: only listeners whose subscriber has gone (done channel closed) are dropped; their channel is closed
+// exactly then; a live subscriber is never unsubscribed by the collector.
+//@ func (*Alerts).gcListeners
+//@   props C03 C14 C13
+//@   requires a != nil && a.listeners != nil
+//@   ensures [monitor-lock-released] count("Mutex).Lock") == 1 && count("Mutex).Unlock") == 1
+//@   at call chan.close assert [only-the-channel-of-a-finished-subscriber-is-closed] ret("select") == 0
+//@   ensures [nothing-new-appears] forall k int :: k in a.listeners ==> old(k in a.listeners) && a.listeners[k] == old(a.listeners[k])
+//@   ensures [dropped-exactly-the-finished-ones] count("chan.close") == old(len(a.listeners)) - len(a.listeners)
+//@   loop 1 invariant (forall k int :: k in a.listeners ==> old(k in a.listeners) && a.listeners[k] == old(a.listeners[k])) && count("chan.close") == old(len(a.listeners)) - len(a.listeners)
+//@   assigns a.listeners[*]
